@@ -7,6 +7,7 @@
 #include <cstdint>
 #include <string>
 #include <map>
+#include <type_traits>
 #ifndef VERIF_TAPE_N
 #define VERIF_TAPE_N 64
 #endif
@@ -31,7 +32,9 @@ public:
   }
 private:
   inline void put(const double &v, int p) { verif_tape_d[p] = v; }
-  template <typename T> inline void put(const T &v, int p) { verif_tape_u[p] = (uint64_t)v; }
+  template <typename T> inline typename std::enable_if<!std::is_class<T>::value>::type put(const T &v, int p) { verif_tape_u[p] = (uint64_t)v; }
+  // class-typed items (OperatingSystem::TimeValue of Timer) are outside the tape model: writing one is a failed obligation
+  template <typename T> inline typename std::enable_if<std::is_class<T>::value>::type put(const T &, int) { __verif_check(0); }
 };
 // strings and maps (parameter files) are outside the tape model: writing one is a failed obligation
 template <> inline void RestartWriter::write(const std::string &) { __verif_check(0); }
@@ -49,7 +52,8 @@ public:
   }
 private:
   inline double get(double *, int p) { return verif_tape_d[p]; }
-  template <typename T> inline T get(T *, int p) { return (T)verif_tape_u[p]; }
+  template <typename T> inline typename std::enable_if<!std::is_class<T>::value, T>::type get(T *, int p) { return (T)verif_tape_u[p]; }
+  template <typename T> inline typename std::enable_if<std::is_class<T>::value, T>::type get(T *, int) { __verif_check(0); return T(); }
 };
 template <> inline std::string RestartReader::read() { __verif_check(0); return std::string(); }
 template <> inline std::map< std::string, std::string > RestartReader::read() { __verif_check(0); return std::map< std::string, std::string >(); }
